@@ -33,6 +33,49 @@ TYPED_FUNC = "codegen::TypedFunc"
 CHECK_ROTO_TYPE = "codegen::check::check_roto_type"
 
 
+def _closure_reads(F, b, bb):
+    """Field names read by the closures of `b` that are handed to the call ending block `bb` (an Option/Result combinator whose
+    closure makes the test: the gate on the combinator's result is then a gate on what the closure looked at)."""
+    t = b.blocks[bb]["term"]
+    if t.get("k") != "call":
+        return []
+    out = []
+    cl = {}
+    for blk in b.blocks:
+        for st in blk["stmts"]:
+            if st["k"] == "assign" and st["rv"]["k"] == "agg" and st["rv"].get("ak") == "closure" and len(st["p"]) == 1:
+                cl[st["p"][0]] = st["rv"].get("def")
+    for a in t.get("args") or []:
+        l = a[1][0] if mir.is_place_op(a) else None
+        if l not in cl or not cl[l]:
+            continue
+        seen, todo = set(), [cl[l]]
+        while todo:
+            cp = todo.pop()
+            if cp in seen:
+                continue
+            seen.add(cp)
+            cb = F.body(cp)
+            if cb is None or not cb.mir:
+                continue
+            for blk in cb.blocks:
+                for n in _walk_json(blk):
+                    if isinstance(n, list) and len(n) == 3 and n[0] == "f" and isinstance(n[2], str):
+                        out.append("closure reads " + n[2])
+            todo += [q for q in F.paths() if q.startswith(cp + "::{closure#")]
+    return out
+
+
+def _walk_json(x):
+    yield x
+    if isinstance(x, dict):
+        for v in x.values():
+            yield from _walk_json(v)
+    elif isinstance(x, list):
+        for v in x:
+            yield from _walk_json(v)
+
+
 def rule_g1(F, get_function=GET_FUNCTION, typed_func=TYPED_FUNC,
             required=("check_args", "check_roto_type_reflect", "HashMap", "signature")):
     r = RuleResult("C04.G1", "TypedFunc is built only after name lookup, signature test, check_args? and return check? succeeded", floor=4)
@@ -54,6 +97,7 @@ def rule_g1(F, get_function=GET_FUNCTION, typed_func=TYPED_FUNC,
                 names = [c[1] for c in g["chain"]] + [mir.origin_key(b, defs, g["place"])]
                 for c in g["chain"]:
                     names += sorted(mir.ok_implies(F, c[1]))   # a checking helper: its success implies the success of what it checks
+                    names += _closure_reads(F, b, c[0])          # `.and_then(|info| info.signature.as_ref()..)`: what the closure reads
                 if not any(need in n for n in names):
                     continue
                 found = True
